@@ -193,7 +193,7 @@ def run_case(case, ctx):
                 import traceback
                 raise observe.Mismatch(f"loud: run raised {type(e).__name__}: {e} :: {traceback.format_exc()[-600:]}")
             msgs = []
-            for stage2 in (['same'] if mode == 'euler' else ['same', 'next']):
+            for stage2 in ['same']:      # sample k is the value used during integration step k, in both Heun stages
                 exp = observe.ref_trajectory(ref, keys, N, dt, heun=(mode == 'heun'),
                                              input_fn=lambda k: input_values(plan_, k=k), stage2=stage2)
                 msgs.append(observe.compare_traj(df.values, exp, rtol=1e-7))
